@@ -1080,6 +1080,8 @@ class TorConfig:
                 parsed = self.parsers[rn].parse(v)
                 if parsed == [DEFAULT_VALUE]:
                     parsed = defaults.get(rn, [])
+                    if not isinstance(parsed, list):
+                        parsed = [parsed]
                 self.config[rn] = _ListWrapper(
                     parsed, functools.partial(self.mark_unsaved, rn))
 
